@@ -54,7 +54,9 @@ class _Run(object):
             self.violate('judging-raises:%s' % type(e).__name__, 'reading the message delivered by %s raised %r' % (who, e), exc=e)
             return
         if d:
-            self.violate('wrong:%s' % '-'.join(str(d).split()[:3]), '%s: %s' % (who, str(d)[:300]))
+            # (tag, text): the tag names the clause that is broken and goes into the signature - no values, no random choices
+            tag, text = d if isinstance(d, tuple) else ('-'.join(str(d).split()[:2]), d)
+            self.violate('wrong:%s' % tag, '%s: %s' % (who, str(text)[:300]))
 
     def step(self, gen, exps, at, opts, who):
         """advance one scan by one message; returns new position or None when finished"""
